@@ -42,6 +42,26 @@ def gen_cases(seed, tier, n):
                 ops = [e for e in rk["events"] if e.get("cat") == "cpu_op" and (e.get("pid"), e.get("tid")) == pt and "dur" in e]
                 if ops:
                     rng.choice(ops)["name"] = "autograd::engine::evaluate_function: AddBackward0"
+                # ... and one operator name certainly occurs on both threads at comparable depth: a top-level operator of the other thread that
+                # lies within a step, and an operator directly beneath a step on this thread that launches something, get the same name
+                # (under which operator of the main thread the other thread is attached then decides which instances are the shallowest)
+                X = lambda e: e.get("ph") == "X" and "dur" in e
+                if len(steps) == 1:
+                    # the only step is widened to span the rank's whole host activity, so that both threads' operators lie within it
+                    hostx = [e for e in rk["events"] if X(e) and "stream" not in (e.get("args") or {}) and e.get("pid") == pt[0]]
+                    lo, hi = min(e["ts"] for e in hostx), max(e["ts"] + e["dur"] for e in hostx)
+                    steps[0]["ts"], steps[0]["dur"] = max(lo - 1, 0), hi + 1 - max(lo - 1, 0)
+                inside = lambda a, b: a is not b and b["ts"] <= a["ts"] and a["ts"] + a["dur"] <= b["ts"] + b["dur"]
+                mine = [e for e in rk["events"] if X(e) and (e.get("pid"), e.get("tid")) == pt]
+                other = [e for e in rk["events"] if X(e) and e.get("pid") == pt[0] and e.get("tid") != pt[1] and "stream" not in (e.get("args") or {})]
+                top_other = [e for e in other if e.get("cat") == "cpu_op" and "autograd::" not in str(e.get("name")) and not any(inside(e, o) for o in other)
+                             and any(inside(e, s_) or (s_["ts"] <= e["ts"] and e["ts"] + e["dur"] <= s_["ts"] + s_["dur"]) for s_ in steps)]
+                linked = {(k.get("args") or {}).get("correlation") for k in rk["events"] if X(k) and "stream" in (k.get("args") or {})}
+                under_step = [e for e in mine if e.get("cat") == "cpu_op" and "autograd::" not in str(e.get("name"))
+                              and sum(1 for o in mine if inside(e, o)) == 1 and any(inside(e, s_) for s_ in steps)
+                              and any(inside(l_, e) and (l_.get("args") or {}).get("correlation") in linked for l_ in mine if l_.get("cat") in ("cuda_runtime", "cuda_driver"))]
+                if top_other and under_step:
+                    rng.choice(under_step)["name"] = rng.choice(top_other)["name"]
         if i % 3 == 0:
             # twin kernels: the same kernel name with the same start and duration on another stream, launched by a call
             # whose span is identical to the original launch call's (identical spans nest in file order)
@@ -116,11 +136,22 @@ def _run_impl(case, d):
             ops.append(m[max(0, k - 4):k + 3])
     if rng.random() < 0.5 and names:
         ops.append("aten::")          # a substring shared by many operators
+    # operators that occur on more than one host thread (main and autograd thread, say): at which depth each thread's instances sit decides
+    # which of them count
+    where = {}
+    for r in rows:
+        if r["stream"] == -1 and r["cat"] == "cpu_op":
+            where.setdefault(r["name"], set()).add((r["pid"], r["tid"]))
+    shared = sorted(n for n, th in where.items() if len(th) >= 2 and n not in ops)
+    forced = {}
+    for n in rng.sample(shared, min(2, len(shared))):
+        ops.append(n)
+        forced[n] = 1
     queries = []
     outdir = os.path.join(d, "out")
     os.makedirs(outdir, exist_ok=True)
     for op in ops:
-        minlen = rng.randint(1, 4)
+        minlen = forced.get(op) or rng.randint(1, 4)
         topk = rng.randint(1, 5)
         try:
             df = ta.get_frequent_cuda_kernel_sequences(operator_name=op, output_dir=outdir, min_pattern_len=minlen, rank=rank, top_k=topk, visualize=False)
@@ -193,7 +224,8 @@ LEVEL_TEXT = ("Proof: C16_counts_and_durations (one row per distinct pattern; it
               "depth with num_kernels >= min_pattern_len) and the pattern (name followed by the device activities beneath, in start order) are the model's definitions "
               "on top of C13's call-graph model (whose columns are validated by C13's verified checker). Correspondence on every row and the row order of "
               "get_frequent_cuda_kernel_sequences for operator names occurring in the trace, min_pattern_len 1..4, top_k 1..5."
-              " C16_resolution_independent: times multiplied by k > 0 give the same patterns and counts and k times both durations.")
+              " C16_resolution_independent: times multiplied by k > 0 give the same patterns and counts and k times both durations."
+              " C16_instances_exact: the instances are exactly the matching rows at the shallowest depth at which the name occurs that launch at least min_pattern_len activities, in trace order; C16_pattern_is_rearrangement: a pattern lists every device activity beneath its instance exactly once; C16_table_conserves: the counts add up to the number of instances and the duration columns to the instances' totals (every instance is counted in exactly one row).")
 LEVEL_NOTE = ("Hand model composed of C03's proved builder, C13's call-graph model, get_descendants and the dictionary accumulation. The overlaid trace file is not "
               "examined here.")
 TECHNIQUE = "Coq proof (group-by counting over patterns) over a composed Gallina model + differential correspondence via vm_compute"
